@@ -216,7 +216,7 @@ Qed.
 
 (* ------------------------------------------------------------------ slab deletion *)
 
-Lemma set_range_length : forall h base n g, length (set_range h base n g) = length h.
+Lemma set_range_length : forall n h base g, length (set_range h base n g) = length h.
 Proof. induction n as [|n IH]; intros; cbn; auto. rewrite IH. apply upd_length. Qed.
 
 Lemma set_range_get : forall n h base g z, (forall ob, g (g ob) = g ob) -> g dobj = dobj ->
